@@ -1,6 +1,6 @@
 (* C17 — proofs about the safe fragment: the translation is exact there, hence every verdict of a
    SOUND sympy (Section hypotheses) is a fact of Fortran integer arithmetic. *)
-From Coq Require Import List ZArith QArith Qround Bool String Ascii Lia Setoid.
+From Coq Require Import List ZArith QArith Qround Qpower Bool String Ascii Lia Setoid.
 Import ListNotations.
 From PV Require Import C17.Model.
 Open Scope Z_scope.
@@ -81,13 +81,15 @@ Lemma destride_triple : forall zs, destride (flat_map (fun z => [z; z; 1]) zs) =
 Proof. induction zs as [|z zs IH]; simpl; [reflexivity | rewrite IH; reflexivity]. Qed.
 
 (* -------------------------------------------- from the integer part to Q *)
-Lemma qpow_nat_inject : forall q x n, (q == inject_Z x)%Q ->
-  (qpow_nat q n == inject_Z (x ^ Z.of_nat n))%Q.
+Lemma qpower_inject : forall q x k, (q == inject_Z x)%Q -> 0 <= k ->
+  (Qpower q k == inject_Z (x ^ k))%Q.
 Proof.
-  intros q x n Hq. induction n as [|n IH].
-  - simpl. reflexivity.
-  - rewrite Nat2Z.inj_succ, Z.pow_succ_r by lia. cbn [qpow_nat].
-    rewrite inject_Z_mult, IH, Hq. reflexivity.
+  intros q x k Hq Hk. destruct k as [|p|p]; [reflexivity | | lia].
+  cbn [Qpower]. induction p as [|p IH] using Pos.peano_ind.
+  - change (Qpower_positive q 1) with q. rewrite Z.pow_1_r. exact Hq.
+  - rewrite Pos2Z.inj_succ, Z.pow_succ_r by lia.
+    replace (Pos.succ p) with (1 + p)%positive by lia.
+    rewrite Qpower_plus_positive, inject_Z_mult, IH by lia. change (Qpower_positive q 1) with q. rewrite Hq. reflexivity.
 Qed.
 
 Lemma qmin_inject : forall q1 q2 x y, (q1 == inject_Z x)%Q -> (q2 == inject_Z y)%Q ->
@@ -157,10 +159,9 @@ Proof.
     + inversion H; subst. eexists; split; [reflexivity|]. rewrite inject_Z_mult, Hqa, Hqb. reflexivity.
     + discriminate.
     + destruct (0 <=? zb) eqn:Ez; [|discriminate]. inversion H; subst.
-      destruct (q_is_int_inject qb zb Hqb) as [Hi Hf]. unfold qpow. rewrite Hi, Hf, Ez.
-      eexists; split; [reflexivity|].
-      pose proof (qpow_nat_inject qa za (Z.to_nat zb) Hqa) as P.
-      rewrite Z2Nat.id in P by (apply Z.leb_le; exact Ez). exact P.
+      destruct (q_is_int_inject qb zb Hqb) as [Hi Hf]. unfold qpow. rewrite Hi, Hf.
+      apply Z.leb_le in Ez. replace (zb <? 0) with false by (symmetry; apply Z.ltb_ge; exact Ez). cbn [andb].
+      eexists; split; [reflexivity|]. apply qpower_inject; assumption.
   - cbn [zseval] in H. destruct (sequence (map (zseval E) args)) as [zs|] eqn:Es; [|discriminate].
     assert (exists qs, sequence (map (seval (liftQ E)) args) = Some qs /\ Forall2 qz qs zs) as [qs [Hqs HF]].
     { clear H. revert zs Es. induction IH as [|a args Ha _ IHl]; intros zs Es.
@@ -485,7 +486,8 @@ Proof.
     + inversion H; subst. rewrite peval_pmul. reflexivity.
     + discriminate.
     + destruct (is_const pb) as [k|] eqn:Ek; [|discriminate].
-      destruct (0 <=? k) eqn:E0; [|discriminate]. inversion H; subst.
+      destruct ((0 <=? k) && (k <=? 64)) eqn:E01; [|discriminate]. inversion H; subst.
+      apply andb_true_iff in E01 as [E0 _].
       rewrite (is_const_sound E pb k Ek), E0, peval_ppow, Z2Nat.id by (apply Z.leb_le; exact E0).
       reflexivity.
   - discriminate.
